@@ -661,6 +661,23 @@ func checkRunsWhole(c *Ctx, r *Report) {
 								}
 								return vbool(row[i.I]), true
 							}
+							// the other queries of the bit array, answered by the model (their own correctness: S-WHOLE2 under C16)
+							if isMethodNamed(callee, "", "BitArray", "GetNextSet") || isMethodNamed(callee, "", "BitArray", "GetNextUnset") {
+								i := rr.expr(call.Args[0])
+								if i.K != VInt || i.I < 0 {
+									outside = true
+									return vint(int64(L)), true
+								}
+								wantSet := isMethodNamed(callee, "", "BitArray", "GetNextSet")
+								k := i.I
+								for k < int64(L) && row[k] != wantSet {
+									k++
+								}
+								if k > int64(L) {
+									k = int64(L)
+								}
+								return vint(k), true
+							}
 							return errCtorHook(rr, call, callee)
 						}}
 						res, err := c.rpfCall(fd, p, []*Val{{K: VNil}, vint(int64(start)), counters}, h)
